@@ -58,6 +58,17 @@ Theorem C07_evict_sound_partial : forall fuel cid slot H H',
   exists t, slab_get slot (gcmd cid H') = Some t /\ evictable (t_fs t).
 Proof. exact evict_sound. Qed.
 
+(* A finished task stays finished and a task that is gone stays gone, through every step of the runtime on
+   any command (so a JoinHandle that has once seen its task finish, or its task dropped, is never blocked
+   again), for every fuel and heap. *)
+From Crux Require Rt.Perm.
+Theorem C07_finished_stays_finished : forall fuel cid H H' u,
+  settle fuel cid H = Some H' -> tf_fin (gtf u H) = true -> tf_fin (gtf u H') = true.
+Proof. intros fuel cid H H' u E. exact (Perm.pm_fin _ _ (Perm.perm_settle fuel cid H H' E) u). Qed.
+Theorem C07_gone_task_stays_gone : forall fuel cid H H' u,
+  settle fuel cid H = Some H' -> u < length (tfl H) -> tf_alive (gtf u H) = false -> tf_alive (gtf u H') = false.
+Proof. intros fuel cid H H' u E. exact (Perm.pm_gone _ _ (Perm.perm_settle fuel cid H H' E) u). Qed.
+
 (* On the reference semantics (coq/Rt/Ref.v, with which the implementation is compared step by step on every
    cancellation-free generated case): a command that reports done has no strand left, takes no later answer,
    is not changed by any later drop, and running it again produces nothing - done is final. *)
